@@ -65,8 +65,7 @@ getStartIndex(
     // the start index as the length of the string.  That
     // will result in an empty string, which is what we want.
     if (DoubleSupport::isNaN(theSecondArgValue) == true ||
-        DoubleSupport::isPositiveInfinity(theSecondArgValue) == true ||
-        DoubleSupport::isNegativeInfinity(theSecondArgValue) == true)
+        DoubleSupport::isPositiveInfinity(theSecondArgValue) == true)
     {
         return theStringLength;
     }
@@ -138,7 +137,8 @@ getSubstringLength(
         }
         else if (DoubleSupport::isPositiveInfinity(theThirdArgValue) == true)
         {
-            return theMaxLength;
+            // -Infinity + Infinity is NaN, so no position qualifies.
+            return DoubleSupport::isNegativeInfinity(theSecondArgValue) == true ? 0 : theMaxLength;
         }
         else
         {
